@@ -8,6 +8,8 @@ import orc
 
 
 def run(res, replay=None):
+    # structural tie of the epoch machinery of phasegen/demography.py (generator, get_epochs, discrete _broadcast / _apply): translate the CURRENT source and re-check proofs/GenDemographyEquiv.v
+    import translate_step; (res.proof is not None) and translate_step.run(res.proof, pid=res.pid, tie='demography')
     # structural tie of the searches on the distribution function (_update, _cum, quantile, _get_absorption_time, t_max): translate the CURRENT source and re-check proofs/GenSearchEquiv.v
     import translate_step; (res.proof is not None) and translate_step.run(res.proof, pid=res.pid, tie='search')
     # structural tie of the moment assembly (accumulate: centring, permutations; moment: windows) of phasegen/distributions.py: translate the CURRENT source and re-check proofs/GenMomentsEquiv.v
